@@ -342,6 +342,13 @@ func Variants(s *State, thorough bool) []Variant {
 				Op:    &Insert{Id: "v", Tab: n, Rows: [][]Expr{r1, full(Arith{'/', LI(1), LI(0)})}},
 				Retry: &Insert{Id: "r", Tab: n, Rows: [][]Expr{r1, full(Arith{'/', LI(1), LI(1)})}}})
 		}
+		// refused while the tables are being loaded for the statement (after the cache has been consulted)
+		add(Variant{Id: n + "-upd-table-named-twice",
+			Op:    &RawFail{Id: "v", Cls: "update", Tabs: []string{n}, Text: "UPDATE " + n + " SET " + ts.txt + " = 'never' FROM " + n + ", " + n},
+			Retry: &Update{Id: "r", Targets: []string{n}, From: single(n), Sets: []SetItem{set(col(ts.txt), LS("never"))}}})
+		add(Variant{Id: n + "-del-table-named-twice",
+			Op:    &RawFail{Id: "v", Cls: "delete", Tabs: []string{n}, Text: "DELETE " + n + " FROM " + n + ", " + n},
+			Retry: &Delete{Id: "r", Targets: []string{n}, From: single(n), Where: eq(C(ts.num), LI(safeK))}})
 		add(Variant{Id: n + "-ins-unknown-field",
 			Op:    &Insert{Id: "v", Tab: n, Cols: []string{"k", "nosuch"}, Rows: [][]Expr{row(LS("z1"), LI(1))}},
 			Retry: &Insert{Id: "r", Tab: n, Cols: []string{"k"}, Rows: [][]Expr{row(LS("z1"))}}})
